@@ -34,6 +34,14 @@ def judgeLine (caseId : String) (op : String) (outs : List String) : String × L
     -- (a machine too busy to get the statement to its log append within five seconds: nothing observed)
     if o == "stmt=ok rows=3" || o == "stmt=err rows=0" || o == "statement never reached its log append" then (caseId, []) else
       (caseId, [s!"VIOLATION case={caseId} sig=lock:close-during-statement got=[{o}] (acknowledged and complete, or refused and absent)"])
+  | ["failed-open"] =>
+    let o := outs.head?.getD ""
+    if o == "ok" || o.startsWith "setup:" then (caseId, []) else
+      (caseId, [s!"VIOLATION case={caseId} sig=lock:failed-open-leaves-a-flusher got=[{o}]"])
+  | ["close-during-create-table"] =>
+    let o := outs.head?.getD ""
+    if o == "stmt=ok table=present" || o == "stmt=err table=absent" || o == "hook point not reached" then (caseId, []) else
+      (caseId, [s!"VIOLATION case={caseId} sig=lock:close-during-create-table got=[{o}] (acknowledged and present, or refused and absent)"])
   | ["races"] =>
     let o := outs.head?.getD ""
     if o == "races 0" then (caseId, []) else
